@@ -88,6 +88,7 @@ PROPS = {
     },
     "C19": {
         "level": "proof",
+        "race": True,
         "extract": ["Session", "Queues"],
         "model_ops": c19_model_ops,
         "rule": "stress: N in {2,8,32} (thorough: up to 64) goroutines request proxies for 5 services behind 3 endpoints "
@@ -106,6 +107,7 @@ PROPS = {
     },
     "C16": {
         "level": "proof",
+        "race": True,
         "extract": ["Service"],
         "rule": "random histories (8-32 operations each) of Add / Remove (live, already removed, unknown id) / remote call "
                 "/ remote terminate (own id, 0, wrong id) / subscribe (one connection per subscriber) on a real service "
@@ -193,6 +195,7 @@ PROPS = {
     },
     "C17": {
         "level": "proof",
+        "race": True,
         "extract": ["Endpoint"],
         "rule": "exact mode: random sequences (8-38 ops) on a real endpoint over an in-memory connection: MakeHandler "
                 "(filters = residue classes of the action id, some removing themselves on a given message id, queue "
@@ -210,6 +213,7 @@ PROPS = {
     },
     "C10": {
         "level": "proof",
+        "race": True,
         "extract": ["Endpoint", "Message", "Stream"],
         "rule": "N in {2,3,4,8,16} goroutines each Send K in {4,16,32,64} messages (payload 0 B - 350 kB, content a function "
                 "of the message id) through one sending endpoint over net.Pipe, unix://, tcp://, tcps:// (TLS) and "
@@ -229,6 +233,7 @@ PROPS = {
     },
     "C11": {
         "level": "proof",
+        "race": True,
         "extract": ["Client", "Endpoint"],
         "rule": "the real bus client (Call, Subscribe, OnDisconnect) on an endpoint over a harness-implemented net.Stream "
                 "whose every Write blocks until the script lets it succeed or fail and whose reader gets exactly the bytes or "
@@ -284,6 +289,7 @@ PROPS = {
     },
     "C06": {
         "level": "proof",
+        "race": True,
         "extract": ["Auth"],
         "rule": "a real StandAloneServer (authenticator: dictionary / Yes / No; two probe services counting invocations) on "
                 "harness-owned in-memory connections (1-3 per round); raw frames of every message type (incl. unknown type "
@@ -304,6 +310,7 @@ PROPS = {
     },
     "C04": {
         "level": "proof",
+        "race": True,
         "extract": ["Calls", "Client", "Endpoint", "Auth"],
         "rule": "(a) server side, exact: a real server with two probe services counting executions (a hand-written object "
                 "behind the generic object dispatcher: echo / zero-argument tick; the generated PingPong stub), raw frames "
@@ -324,6 +331,7 @@ PROPS = {
     },
     "C13": {
         "level": "proof",
+        "race": True,
         "extract": ["Signals", "Client"],
         "rule": "a real server with the generated PingPong stub (signal pong) and 1-3 real clients (bus.Client + "
                 "Proxy.SubscribeID) over in-memory connections whose client-to-server direction the script can hold and "
@@ -347,6 +355,7 @@ PROPS = {
     },
     "C14": {
         "level": "proof",
+        "race": True,
         "extract": ["Property"],
         "rule": "two real objects on a real server — the generated Bomb stub (delay: int32, validator) and a hand-written "
                 "object behind the generic object dispatcher with an int32, a string and a float property and its own "
@@ -366,6 +375,7 @@ PROPS = {
     },
     "C15": {
         "level": "proof",
+        "race": True,
         "extract": ["Directory"],
         "rule": "a real directory server; remote operations through the generated ServiceDirectory proxy (register with valid "
                 "and invalid infos — empty name / machine id, process 0, no or empty endpoint —, ready, unregister, update "
@@ -384,6 +394,7 @@ PROPS = {
     },
     "C12": {
         "level": "proof",
+        "race": True,
         "extract": ["Mailbox", "Signals", "Endpoint", "Queues"],
         "rule": "per scenario a child process (4 GiB address-space ceiling) runs a directory server with a PingPong and a Bomb "
                 "service on a unix socket; a hostile authenticated client sends: valid mixed traffic; 40 repeated / "
